@@ -26,9 +26,9 @@ def parseVtx (s : String) : Vtx :=
 
 def showVtx : Vtx → String
   | .root => "R"
-  | .value n t st => s!"V:{if n = "" then "~" else n}:{t}:{if st = "" then "~" else st}"
-  | .arg t st => s!"A:{t}:{if st = "" then "~" else st}"
-  | .out t st => s!"O:{t}:{if st = "" then "~" else st}"
+  | .value n t st => s!"V:{tilde n}:{t}:{tilde st}"
+  | .arg t st => s!"A:{t}:{tilde st}"
+  | .out t st => s!"O:{t}:{tilde st}"
   | .func k => s!"F:{k}"
 
 structure FnInfo where
@@ -730,6 +730,9 @@ def runCall (fl : Flags) (b : Block) (conv : Bool := false) : Res :=
         s!"FAIL:convert_succeeds={vc}_but_call_on_identity_succeeds={cc}"
       else "ok"
   let c08 : String :=
+    -- (a value supplied under a parameter's name with another type is outside C08's premise: the value the redefined
+    -- function is called with replaces it in the name-keyed option table)
+    if fam = "redefcall" ∧ (kv b.head "collide").getD "false" = "true" then "na" else
     if fam = "redefcall" then
       (match runs.find? (fun r => let c := outcomeClass (resOf r); c == "unsat" || c == "missingarg") with
        | some r => s!"FAIL:redefined_function_failed_for_lack_of_an_argument_{noSpace (showImplRes (resOf r))}"
@@ -746,7 +749,14 @@ def runCall (fl : Flags) (b : Block) (conv : Bool := false) : Res :=
        | some r, some _ => s!"FAIL:redefined_function_reports_{noSpace (showImplRes (resOf r))}_although_the_call_succeeds"
        | _, _ => "ok")
     else "na"
-  { conform := conform, propNA := true, props := agg ++ [("C05", c05), ("C07", c07), ("C08", c08), ("C10", c10), ("C17", c17)],
+  -- C16 on the redefined function: the values it is called with come after the options given to Redefine, so for a
+  -- key given at both times the later one is injected (the replay applies the options in that order)
+  let c16 := if fam = "redefcall" then
+      (match conform with
+       | some m => s!"FAIL:inner_call_of_the_redefined_function_differs_from_options_then_values_in_order:{noSpace m}"
+       | none => "ok")
+    else "na"
+  { conform := conform, propNA := true, props := agg ++ [("C05", c05), ("C07", c07), ("C08", c08), ("C10", c10), ("C17", c17), ("C16", c16)],
     stats := [s!"outcome={firstOutcome}", s!"execs={nexec}", s!"convs={fx.convs.length}", s!"depth={depth}",
               s!"class={if fx.exactAll then "exact" else if !fx.underiv.isEmpty then "underiv" else "deriv"}",
               s!"runs={runs.length}", genStat, premStat] }
